@@ -19,9 +19,11 @@ from .. import vlib, runner
 from ..vlib import tobytes, ToolError, WIDTHS, pairs, boundary_values, rand_value, nlimbs, limb_pattern_pairs
 from . import C07
 
-RULE = ("(B1) every transition of UintMachine (46 operations x all register values x all immediates) at widths 0..3 (quick) / "
+RULE = ("(B1) every transition of UintMachine (57 operations x all register values x all immediates) at widths 0..3 (quick) / "
         "0..5 (thorough), invariants Canonical + NativeOK, each transition replayed on the real Uint; (B2) simulated histories "
-        "(depth 25, 4 registers) at widths {1,7,60,63,64,65,100,127,129,250,255,257}, register file compared after every step; "
+        "(depth 25, 4 registers) at widths {1,7,60,63,64,65,100,127,129,250,255,257}, register file compared after every step, plus a second batch restricted to the masking-sensitive operations at the "
+        "non-aligned widths; (B4) histories drawn by the executor's own driver (any shift amount / bit index) at 16 widths, every logged "
+        "step validated by TLC against UintMachine!Apply (MachineTrace.tla); "
         "(B3) ==,!=,<,<=,>,>=,cmp,partial_cmp,min,max,is_zero,hash on all pairs at BITS<=6 and boundary pairs differing in one limb, "
         "rand 0.8/0.9, arbitrary, quickcheck, proptest (incl. shrinking) generators, all limb-slice constructors with out-of-range "
         "limbs; (P) 7 ill-formed + 5 well-formed (BITS,LIMBS) pairs x 33 constants/constructors as compiled probe programs; a case "
@@ -186,6 +188,90 @@ def event_scenarios(tier, rng):
     return {"ux_bits": bitsg, "ux_fac": fac, "ux_conv": conv}
 
 
+DRIVE_WIDTHS = [1, 7, 60, 63, 64, 65, 100, 127, 128, 129, 192, 250, 255, 256, 257, 512]
+
+
+def driver_histories(scens, workdir, res, tag="drv"):
+    """(B4) implementation -> specification for the machine: the executor's own driver chooses the histories, TLC validates
+    the logged steps against UintMachine!Apply (spec/MachineTrace.tla, mismatch-tolerant).  Returns (steps, histories,
+    negative controls injected, rejected)."""
+    sp, ep = os.path.join(workdir, f"{tag}_scen.ndjson"), os.path.join(workdir, f"{tag}_ev.ndjson")
+    with open(sp, "w") as fh:
+        for sc in scens:
+            fh.write(json.dumps(sc, separators=(",", ":")) + "\n")
+    xst = vlib.execute("ux_mach", sp, ep, hang_secs=120)
+    res.hangs += xst["hangs"]
+    res.crashes += xst["crashes"]
+    hists = []
+    with open(ep) as fh:
+        for sc, line in zip(scens, fh):
+            ev = json.loads(line)
+            if ev.get("st") != "ok" or "hist" not in ev:
+                res.violations.append((dict(sc, op="driver", st=ev.get("st")), ["driver"], sorted(sc.keys())))
+                continue
+            hists.append((sc, ev["hist"]))
+    # negative controls: a copy of some histories with one register byte of one step corrupted must be reported
+    negs = []
+    for k, (sc, h) in enumerate(hists):
+        if k % 4 == 0 and len(h["steps"]) > 3:
+            hh = json.loads(json.dumps(h))
+            j = 1 + (k * 7) % (len(hh["steps"]) - 1)
+            r = hh["steps"][j]["regs"][hh["steps"][j]["d"] - 1]
+            if r:
+                r[0] ^= 1
+                if len(r) == 1 and r[0] == 0:
+                    r.clear()
+            else:
+                r.append(1)
+            negs.append((j + 1, hh))
+    nshard = min(vlib.NCPU, 8)
+    shards = [[] for _ in range(nshard)]
+    for k, item in enumerate([("real", sc, h) for sc, h in hists] + [("neg", j, h) for j, h in negs]):
+        shards[k % nshard].append(item)
+    procs = []
+    for si, items in enumerate(shards):
+        if not items:
+            continue
+        tp = os.path.join(workdir, f"{tag}_trace_{si}.ndjson")
+        with open(tp, "w") as fh:
+            for it in items:
+                fh.write(json.dumps(it[2], separators=(",", ":")) + "\n")
+        cmd = vlib.tlc_cmd("MachineTrace.tla", "MachineTrace.cfg", os.path.join(workdir, f"{tag}_meta_{si}"))
+        cmd[1:1] = ["-Dtlc2.tool.queue.IStateQueue=StateDeque"]
+        env = dict(os.environ, TRACE=tp)
+        procs.append((si, items, subprocess.Popen(cmd, cwd=vlib.SPEC, env=env, stdout=subprocess.PIPE, stderr=subprocess.STDOUT, text=True)))
+    nsteps = 0
+    neg_inj = neg_rej = 0
+    for si, items, pr in procs:
+        try:
+            out, _ = pr.communicate(timeout=3000)
+        except subprocess.TimeoutExpired:
+            pr.kill()
+            raise vlib.ToolError(f"TLC timed out on MachineTrace shard {si}")
+        if "No error has been found" not in out or "TRACE-NOT-CONSUMED" in out:
+            raise vlib.ToolError("TLC failed on MachineTrace: " + out[-1500:])
+        bad = {}
+        for m in re.finditer(r'<<"MISMATCH", (\d+), (\d+), "([a-z_0-9]+)">>', out):
+            bad.setdefault(int(m.group(1)), []).append((int(m.group(2)), m.group(3)))
+        for li, it in enumerate(items, start=1):
+            if it[0] == "real":
+                sc, h = it[1], it[2]
+                nsteps += len(h["steps"]) - 1
+                if li in bad:
+                    i, op = bad[li][0]
+                    st = h["steps"][i - 1]
+                    small = dict(sc, op="driver_history", failing_step=i, failing_op=op, step=st, before=h["steps"][i - 2]["regs"],
+                                 all_failing=[list(b) for b in bad[li][:10]], st="ok")
+                    res.violations.append((small, ["step:" + op], sorted(sc.keys())))
+            else:
+                neg_inj += 1
+                if li in bad and any(i == it[1] for i, _ in bad[li]):
+                    neg_rej += 1
+                else:
+                    res.extra.setdefault("neg_not_rejected", []).append({"op": "driver_history", "neg": "reg", "bits": it[2]["bits"], "step": it[1]})
+    return nsteps, len(hists), neg_inj, neg_rej
+
+
 def main(tier, seed, replay, t0):
     rng = random.Random(seed)
     quick = tier == "quick"
@@ -198,7 +284,9 @@ def main(tier, seed, replay, t0):
     if replay:
         rp = json.load(open(replay))
         scn = rp["scenario"]
-        if scn.get("g") in ("t", "h"):
+        if scn.get("g") == "d":
+            driver_histories([{k: scn[k] for k in ("g", "bits", "seed", "steps")}], workdir, res, tag="drv_replay")
+        elif scn.get("g") in ("t", "h"):
             sp, ep = os.path.join(workdir, "replay_scen.ndjson"), os.path.join(workdir, "replay_ev.ndjson")
             open(sp, "w").write(json.dumps(scn) + "\n")
             vlib.execute("ux_mach", sp, ep)
@@ -266,6 +354,19 @@ def main(tier, seed, replay, t0):
         res.shards += len(hists)
     if len(hists) < nsim // 2:
         extra["machine_histories_note"] = f"only {len(hists)} of {nsim} simulated behaviours reached the emission depth"
+    # ---- (B4) histories chosen by the implementation-side driver, validated by TLC against the machine
+    per_w = 3 if quick else 20
+    dscen = [{"g": "d", "bits": b, "seed": seed * 100003 + 17 * b + k, "steps": 60 if quick else 120} for b in DRIVE_WIDTHS for k in range(per_w)]
+    dsteps, dh, ninj, nrej = driver_histories(dscen, workdir, res)
+    res.transitions += dsteps
+    res.shards += dh
+    res.neg_injected += ninj
+    res.neg_rejected += nrej
+    res.extra["_extra_distinct"] = res.extra.get("_extra_distinct", 0) + dh
+    extra["driver_histories"] = {"histories": dh, "steps_validated": dsteps, "widths": DRIVE_WIDTHS,
+                                 "negative_controls": {"injected": ninj, "rejected": nrej},
+                                 "direction": "implementation -> specification: ux_mach's own driver draws the operations, registers and "
+                                              "immediates; spec/MachineTrace.tla checks every logged step against UintMachine!Apply"}
     # ---- (P) ill-formed types
     probes = ctor_probes(workdir, quick)
     extra["ctor_probes"] = {"probes": len(probes),
